@@ -112,6 +112,57 @@ def OBJECT(cls, **attrs):
 HOSTFN = Dom(['hostfn'], label='HOSTFN')
 
 
+def PROD(lhs, *rhs):
+    """ a production instance handed to a grammar action: PROD('expression', ('expression', VALUE_T), ('PLUS', '+'), ...)
+        each right-hand-side entry is (symbol name, Dom or constant) """
+    parts = [(lhs, CONST(None))]
+    for name, d in rhs:
+        parts.append((name, d if isinstance(d, Dom) else CONST(d)))
+    return Dom(['prod'], parts=None, attrs={'parts': parts}, label='PROD(%s : %s)' % (lhs, ' '.join(n for n, _ in parts[1:])))
+
+
+class Recorder(object):
+    """ native stand-in for a host callable: records its calls, returns a fresh object per call (or a programmed value) """
+    def __init__(self, name='host', result=None, has_result=False, raises=None):
+        self.name = name
+        self.calls = []
+        self.results = []
+        self.result = result
+        self.has_result = has_result
+        self.raises = raises
+
+    def __call__(self, *args, **kwargs):
+        self.calls.append((args, kwargs))
+        if self.raises is not None:
+            self.results.append(('raise', self.raises))
+            raise self.raises
+        r = self.result if self.has_result else Token('%s#%d' % (self.name, len(self.calls)))
+        self.results.append(('ret', r))
+        return r
+
+
+class Token(object):
+    def __init__(self, name):
+        self.name = name
+
+    def __repr__(self):
+        return '<%s>' % self.name
+
+
+def result_of(contract_cls, *args):
+    return contract_cls.spec(*args)
+
+
+def calls(fn):
+    """ positional-argument tuples of the calls made to a host callable during the function under contract """
+    return [list(a) for a, k in fn.calls]
+
+
+def call_result(fn, i):
+    """ value returned by the i-th call of a host callable """
+    return fn.results[i][1]
+
+
 class _Omitted(object):
     def __repr__(self):
         return 'OMITTED'
@@ -203,6 +254,8 @@ def same(a, b):
         return len(a) == len(b) and all(same(x, y) for x, y in zip(a, b))
     if isinstance(a, _xl()) or isinstance(b, _xl()):
         return a is b
+    if isinstance(a, type) or isinstance(b, type):
+        return a is b
     if type(a) is not type(b):
         return False
     if isinstance(a, float):
@@ -248,6 +301,32 @@ def flat(x):
         else:
             out.append(y)
     return out
+
+
+_D0 = datetime.datetime(1, 1, 1)
+
+
+def date_us(d):
+    delta = d - _D0
+    return float((delta.days * 86400 + delta.seconds) * 10**6 + delta.microseconds)
+
+
+def date_from_us(us):
+    return _D0 + datetime.timedelta(microseconds=us)
+
+
+def dateutil_parse(s):
+    from dateutil.parser import parse
+    return parse(s)
+
+
+def xl_type(tag):
+    return {'number': (int, float, complex), 'date': datetime.datetime, 'text': (str,), 'blank': type(None),
+            'error': REAL['XLError']}[tag]
+
+
+def parity_true(items):
+    return sum(1 for a in items if a) % 2 == 1
 
 
 def collapse_spaces(s):
@@ -315,9 +394,9 @@ def ceil(x):
 
 
 NATIVE_NAMES = ['Outcome', 'Dom', 'NONE_T', 'BOOL', 'INT', 'FLOAT', 'STR', 'ERR', 'DATE', 'NUMBER', 'NUMBERB', 'SCALAR',
-                'HOSTOBJ', 'ANY', 'VALUE_T', 'SEQ', 'ARGS', 'CONST', 'TUPLE', 'LISTN', 'OBJECT', 'HOSTFN', 'OMITTED', 'contract',
+                'HOSTOBJ', 'ANY', 'VALUE_T', 'SEQ', 'ARGS', 'CONST', 'TUPLE', 'LISTN', 'OBJECT', 'HOSTFN', 'OMITTED', 'PROD', 'calls', 'call_result', 'result_of', 'contract',
                 'lemma', 'is_none', 'is_bool', 'is_int', 'is_float', 'is_num', 'is_numb', 'is_str', 'is_err', 'is_date',
-                'is_list', 'is_obj', 'same', 'truthy', 'implies', 'raises', 'raise_err', 'forall', 'exists', 'flat', 'collapse_spaces', 'replace_kth',
+                'is_list', 'is_obj', 'same', 'truthy', 'implies', 'raises', 'raise_err', 'forall', 'exists', 'flat', 'collapse_spaces', 'replace_kth', 'parity_true', 'xl_type', 'date_us', 'date_from_us', 'dateutil_parse',
                 'int_of_text', 'text_is_int', 'float_of_text', 'text_is_float', 'errmsg', 'is_canonical', 'real',
                 'floor', 'ceil']
 ERR_NAMES = ['ERROR', 'DIV_ZERO', 'NAME', 'NOT_AVAILABLE', 'NULL', 'NUM', 'REF', 'VALUE', 'DATA']
@@ -340,6 +419,29 @@ def native_namespace():
 
 # ---------------------------------------------------------------------------------------------- native sampling
 
+class ProdSpec(object):
+    """ recipe for a fresh YaccProduction (built per call because actions store into p[0]) """
+    def __init__(self, names, vals):
+        self.names = names
+        self.vals = vals
+
+    def __repr__(self):
+        return 'PROD(%s)' % ', '.join('%s=%r' % (n, v) for n, v in zip(self.names, self.vals))
+
+
+class HostFnSpec(object):
+    def __repr__(self):
+        return '<host callable>'
+
+
+class ObjSpec(object):
+    def __init__(self, cls, attrs):
+        self.cls = cls
+        self.attrs = attrs
+
+    def __repr__(self):
+        return '%s(%s)' % (self.cls.split(':')[-1], ', '.join('%s=%r' % kv for kv in self.attrs.items()))
+
 SAMPLE_POOL = {
     'none': [None],
     'bool': [True, False],
@@ -357,6 +459,24 @@ def samples_of(dom, rng, depth=0):
     """ finite list of native values of a domain """
     if dom.has_const:
         return [dom.const]
+    if 'prod' in dom.kinds:
+        pools = [samples_of(d, rng, depth + 1) for _, d in dom.attrs['parts']]
+        names = [n for n, _ in dom.attrs['parts']]
+        total = 1
+        for p in pools:
+            total *= max(1, len(p))
+        combos = itertools.product(*pools) if total <= 300 else (tuple(rng.choice(p) for p in pools) for _ in range(300))
+        return [ProdSpec(names, list(c)) for c in combos]
+    if 'hostfn' in dom.kinds:
+        return [HostFnSpec()]
+    if 'pyobj' in dom.kinds:
+        names = list((dom.attrs or {}).keys())
+        pools = [samples_of(dom.attrs[n], rng, depth + 1) for n in names]
+        total = 1
+        for p in pools:
+            total *= max(1, len(p))
+        combos = itertools.product(*pools) if total <= 60 else (tuple(rng.choice(p) for p in pools) for _ in range(60))
+        return [ObjSpec(dom.cls, dict(zip(names, c))) for c in combos]
     if dom.parts is not None:
         pools = [samples_of(p, rng, depth + 1) for p in dom.parts]
         out = []
